@@ -309,7 +309,11 @@ def stress(ctx, tree, q):
         r = vt.sh(["cc", "-pthread", "-o", f[:-2] + ".exe", f[:-2] + ".o"], timeout=60)
         if r.returncode:
             raise Infra("link of the stress program failed: " + r.stderr[-600:])
-        p = subprocess.run([f[:-2] + ".exe"], capture_output=True, text=True, timeout=600)
+        try:
+            p = subprocess.run([f[:-2] + ".exe"], capture_output=True, text=True, timeout=150 if q else 600)
+        except subprocess.TimeoutExpired as e:
+            done = (e.stdout or b"").decode() if isinstance(e.stdout, bytes) else (e.stdout or "")
+            return w, src, [l.split() for l in done.splitlines() if len(l.split()) == 5] + [["?", "hang", "-", "-", "0"]]
         if p.returncode:
             raise Infra("stress program exited with %s" % p.returncode)
         return w, src, [l.split() for l in p.stdout.splitlines()]
@@ -318,6 +322,10 @@ def stress(ctx, tree, q):
         for kind, op, got, exp, lockword in rows:
             n += 1
             ctx.note_case("stress:w%d:%s:%s" % (w, kind, op), nontrivial=True)
+            if op == "hang":
+                ctx.report("stress:hang", "the %d-byte stress program did not finish (a retry loop that never succeeds)" % w,
+                           case=dict(kind="stress", w=w, kinds=kinds, iters=iters, source=src))
+                continue
             if got != exp or lockword != "0":
                 ctx.report("stress:%s:%s:%s" % (kind, "op=" if op in ("add", "postinc", "predec", "xor", "fsub") else op,
                                                  "lost-update" if got != exp else "lock-word-not-released"),
